@@ -7,6 +7,7 @@ import ParryModel.C07.Theorems
 #print axioms C07.dfs_sound_list
 #print axioms C07.dfsLoop_perm
 #print axioms C07.bestFirst_optimal
+#print axioms C07.pairs_complete
 #print axioms C07.axis_lower_bound
 #print axioms C07.msum_lower_bound_sq
 #print axioms C07.msum_lower_bound
